@@ -27,8 +27,11 @@ def is_unqualified_table_expression(expression: exp.Expression) -> tuple[bool, b
 
     # a reference to a CTE defined by the statement isn't a table that needs a database or schema
     ctes = {cte.alias for cte in expression.find_all(exp.CTE)}
-    if not (node := next((t for t in expression.find_all(exp.Table) if t.db or t.name not in ctes), None)):
+    tables = [t for t in expression.find_all(exp.Table) if t.db or t.name not in ctes]
+    if not (node := next(iter(tables), None)):
         return False, False
+    # every named table of the statement counts, not just the first one
+    named = [t for t in tables if isinstance(t.this, exp.Identifier)] or [node]
 
     assert node.parent, f"No parent for table expression {node.sql()}"
 
@@ -44,8 +47,8 @@ def is_unqualified_table_expression(expression: exp.Expression) -> tuple[bool, b
             no_schema = False
         elif parent_kind.upper() in {"TABLE", "VIEW"}:
             # "CREATE/DROP TABLE/VIEW"
-            no_database = not node.args.get("catalog")
-            no_schema = not node.args.get("db")
+            no_database = any(not t.args.get("catalog") for t in named)
+            no_schema = any(not t.args.get("db") for t in named)
         else:
             raise AssertionError(f"Unexpected parent kind: {parent_kind}")
 
@@ -67,8 +70,8 @@ def is_unqualified_table_expression(expression: exp.Expression) -> tuple[bool, b
             raise AssertionError(f"Unexpected parent kind: {parent_kind.name}")
 
     else:
-        no_database = not node.args.get("catalog")
-        no_schema = not node.args.get("db")
+        no_database = any(not t.args.get("catalog") for t in named)
+        no_schema = any(not t.args.get("db") for t in named)
 
     return no_database, no_schema
 
